@@ -1,61 +1,209 @@
-(* Props/C19.v — exported primitives vs their RFC definitions (the provable, structural part). *)
+(* Props/C19.v — property C19: exported primitives vs their RFC definitions (the provable, structural part).
+   PARTIAL.
+   Statements only; proofs are in Spec/ChaPolyFacts.v, HashFacts.v, Concrete.v, Proofs/PrimFacts.v, NoiseFacts.v.
+
+   Two layers.  Spec/*.v are Gallina transcriptions of RFC 8439 (ChaCha20, Poly1305, AEAD), RFC 7748 (X25519),
+   RFC 5869 (HKDF), RFC 2104 (HMAC), FIPS 180-4 (SHA-256), each closed by the documents' own test vectors
+   (Spec/*Kat.v, by computation).  Model/AeadWrap.v are the lib.rs WRAPPERS over an abstract primitive record.
+   Proved here, for ALL inputs: the algebra of the RFC AEAD (open inverts seal; open accepts exactly the strings
+   seal produces, so every altered ciphertext or tag is rejected; lengths), the wrapper behaviour (length
+   preconditions, short input, zero DH result, public key = base-point multiplication, the Noise nonce layout and
+   its injectivity on the whole u64 range), the structure of kestrel's own hkdf_noise as RFC 5869 HKDF, HMAC's
+   treatment of keys longer than the block, output lengths.
+   PARTIAL — NOT proved (named, trusted or only tested):
+   * that orion's code equals the RFC functions for all inputs (orion is not modelled — compared by the
+     correspondence runs and by the known-answer examples);
+   * X25519 symmetry a*B = b*A for all keys ([dh_comm], an explicit hypothesis wherever used; RFC 7748 6.1
+     vectors only);
+   * rejection of a ciphertext under an altered KEY, NONCE or ASSOCIATED DATA (cryptographic: it is not a
+     consequence of the algebra; C19_open_iff covers altered ciphertext and tag);
+   * that every low-order point gives an all-zero result for every scalar (three examples in Spec/X25519Kat.v). *)
 From Kestrel Require Import Bytes Outcome Prims.
 From Kestrel.Model Require Import AeadWrap.
-From Kestrel.Spec Require Import Sha256 Hmac Hkdf HashFacts ChaCha20 Poly1305 ChaPoly ChaPolyFacts Concrete.
+From Kestrel.Spec Require Import Sha256 Hmac Hkdf HashFacts ChaCha20 Poly1305 ChaPoly ChaPolyFacts X25519 Concrete.
 From Kestrel.Proofs Require Import PrimFacts.
 Local Open Scope N_scope.
 
-(* RFC 8439 AEAD (Gallina transcription): open inverts seal for ALL keys, nonces, AAD and plaintexts *)
-Theorem C19_open_seal : forall k n ad m, aead_open k n ad (aead_seal k n ad m) = Some m.
-Proof. exact aead_open_seal. Qed.
+(* RFC 8439 AEAD (Gallina transcription): open inverts seal for ALL keys, nonces, AAD and plaintexts (kept) *)
+Theorem C19_open_seal :
+  forall k n ad m : bytes, aead_open k n ad (aead_seal k n ad m) = Some m.
+Proof. exact (aead_open_seal). Qed.
 Print Assumptions C19_open_seal.
 
-(* ... and open accepts exactly the strings seal produces: any other ciphertext/tag is rejected *)
-Theorem C19_open_iff : forall k n ad c m, aead_open k n ad c = Some m <-> c = aead_seal k n ad m.
-Proof. exact aead_open_iff. Qed.
+(* ... and open accepts exactly the strings seal produces: any other ciphertext/tag is rejected (kept) *)
+Theorem C19_open_iff :
+  forall k n ad c m : bytes, aead_open k n ad c = Some m <-> c = aead_seal k n ad m.
+Proof. exact (aead_open_iff). Qed.
 Print Assumptions C19_open_iff.
 
-Theorem C19_wrong_tag_rejected : forall k n ad body tag, length tag = 16%nat ->
-  tag <> poly1305_mac (poly_key_gen k n) (aead_mac_data ad body) -> aead_open k n ad (body ++ tag) = None.
-Proof. exact aead_open_tag. Qed.
+(* one direction separately: an accepted string is the seal of the returned plaintext *)
+Theorem C19_open_inv :
+  forall k n ad c m : bytes, aead_open k n ad c = Some m -> c = aead_seal k n ad m.
+Proof. exact (aead_open_inv). Qed.
+Print Assumptions C19_open_inv.
+
+(* any tag different from the computed one is rejected — the comparison is equality (kept) *)
+Theorem C19_wrong_tag_rejected :
+  forall (k n ad body : bytes) (tag : list N),
+  length tag = 16%nat ->
+  tag <> poly1305_mac (poly_key_gen k n) (aead_mac_data ad body) ->
+  aead_open k n ad (body ++ tag) = None.
+Proof. exact (aead_open_tag). Qed.
 Print Assumptions C19_wrong_tag_rejected.
 
-Theorem C19_seal_len : forall k n ad m, length (aead_seal k n ad m) = (length m + 16)%nat.
-Proof. exact aead_seal_length. Qed.
+(* (kept) output length = plaintext length + 16 *)
+Theorem C19_seal_len :
+  forall k n ad m : bytes, length (aead_seal k n ad m) = (length m + 16)%nat.
+Proof. exact (aead_seal_length). Qed.
 Print Assumptions C19_seal_len.
 
-(* wrapper: inputs shorter than a tag are an error value (after fix F1), never a panic *)
-Theorem C19_short_rejected : forall P key nonce ct ad,
-  length key = 32%nat -> length nonce = 12%nat -> (length ct < 16)%nat ->
-  chapoly_decrypt_ietf P key nonce ct ad = Err ChaPolyDecryptError.
-Proof. exact aead_short_is_error. Qed.
+(* the RFC open on fewer than 16 bytes returns None *)
+Theorem C19_open_short :
+  forall (k n ad : bytes) (c : list N), (length c < 16)%nat -> aead_open k n ad c = None.
+Proof. exact (aead_open_short). Qed.
+Print Assumptions C19_open_short.
+
+(* seal is injective in the plaintext *)
+Theorem C19_seal_injective :
+  forall k n ad m1 m2 : bytes, aead_seal k n ad m1 = aead_seal k n ad m2 -> m1 = m2.
+Proof. exact (aead_seal_inj). Qed.
+Print Assumptions C19_seal_injective.
+
+(* ChaCha20 encryption is an involution (decryption = encryption) *)
+Theorem C19_chacha20_involution :
+  forall (k : bytes) (c : N) (n d : bytes), chacha20_encrypt k c n (chacha20_encrypt k c n d) = d.
+Proof. exact (chacha20_encrypt_invol). Qed.
+Print Assumptions C19_chacha20_involution.
+
+(* wrapper: inputs shorter than a tag are an error value (after fix F1), never a panic (kept) *)
+Theorem C19_short_rejected :
+  forall (P : prims) (key nonce ct : list N) (ad : bytes),
+  length key = 32%nat ->
+  length nonce = 12%nat ->
+  (length ct < 16)%nat -> chapoly_decrypt_ietf P key nonce ct ad = Err ChaPolyDecryptError.
+Proof. exact (aead_short_is_error). Qed.
 Print Assumptions C19_short_rejected.
 
-(* Noise-style nonce: 4 zero bytes then the little-endian counter, injective on the whole u64 range *)
-Theorem C19_noise_nonce : forall n, noise_nonce n = [0; 0; 0; 0] ++ le64 n.
-Proof. exact noise_nonce_layout. Qed.
+(* wrapper: with a 32-byte key and a 12-byte nonce the result is Ok or Err for every ciphertext *)
+Theorem C19_wrapper_open_normal :
+  forall (P : prims) (key nonce : list N) (ct ad : bytes),
+  length key = 32%nat -> length nonce = 12%nat -> normal (chapoly_decrypt_ietf P key nonce ct ad).
+Proof. exact (aead_decrypt_normal). Qed.
+Print Assumptions C19_wrapper_open_normal.
+
+(* Noise-style nonce: 4 zero bytes then the little-endian 64-bit counter, for EVERY counter value (kept) *)
+Theorem C19_noise_nonce :
+  forall n : N, noise_nonce n = [0; 0; 0; 0] ++ le64 n.
+Proof. exact (noise_nonce_layout). Qed.
 Print Assumptions C19_noise_nonce.
-Theorem C19_noise_nonce_inj : forall n m, n < 18446744073709551616 -> m < 18446744073709551616 ->
-  noise_nonce n = noise_nonce m -> n = m.
-Proof. exact noise_nonce_inj. Qed.
+
+(* ... injective on the whole u64 range (kept) *)
+Theorem C19_noise_nonce_inj :
+  forall n m : N,
+  n < 18446744073709551616 -> m < 18446744073709551616 -> noise_nonce n = noise_nonce m -> n = m.
+Proof. exact (noise_nonce_inj). Qed.
 Print Assumptions C19_noise_nonce_inj.
 
-Theorem C19_hkdf_noise_is_hkdf : forall scr ck ikm, ck <> [] ->
-  let '(a, b) := hkdf_noise (rfc_prims scr) ck ikm in a ++ b = hkdf ck ikm [] 64.
-Proof. exact hkdf_noise_is_hkdf. Qed.
+(* kestrel's own hkdf_noise(ck, ikm) is the first two 32-byte blocks of RFC 5869 HKDF(salt = ck, ikm, info = "", 64) (kept) *)
+Theorem C19_hkdf_noise_is_hkdf :
+  forall (scr : bytes -> bytes -> N -> N -> N -> nat -> bytes) (ck : list N) (ikm : bytes),
+  ck <> [] -> let '(a, b) := hkdf_noise (rfc_prims scr) ck ikm in a ++ b = hkdf ck ikm [] 64.
+Proof. exact (hkdf_noise_is_hkdf). Qed.
 Print Assumptions C19_hkdf_noise_is_hkdf.
 
-Theorem C19_dh_zero_is_error : forall P k u, length k = 32%nat -> length u = 32%nat ->
-  all_zero (p_dh P k u) = true -> x25519 P k u = Err DhError.
-Proof. exact x25519_zero_is_error. Qed.
+(* both outputs have 32 bytes *)
+Theorem C19_hkdf_noise_lengths :
+  forall (scr : bytes -> bytes -> N -> N -> N -> nat -> bytes) (ck ikm : bytes),
+  let '(a, b) := hkdf_noise (rfc_prims scr) ck ikm in length a = 32%nat /\ length b = 32%nat.
+Proof. exact (hkdf_noise_lengths). Qed.
+Print Assumptions C19_hkdf_noise_lengths.
+
+(* HKDF structure: extract is HMAC(salt, ikm) ... *)
+Theorem C19_hkdf_extract_is_hmac :
+  forall salt ikm : bytes, hkdf_extract salt ikm = hmac_sha256 salt ikm.
+Proof. exact (hkdf_extract_hmac). Qed.
+Print Assumptions C19_hkdf_extract_is_hmac.
+
+(* ... one block of output is HMAC(prk, info || 01) ... *)
+Theorem C19_hkdf_32 :
+  forall salt ikm info : bytes,
+  hkdf salt ikm info 32 = hmac_sha256 (hkdf_extract salt ikm) (info ++ [1]).
+Proof. exact (hkdf_32). Qed.
+Print Assumptions C19_hkdf_32.
+
+(* ... two blocks chain as RFC 5869 prescribes *)
+Theorem C19_hkdf_64 :
+  forall salt ikm info : bytes,
+  hkdf salt ikm info 64 =
+  (let prk := hkdf_extract salt ikm in
+   let t1 := hmac_sha256 prk (info ++ [1]) in t1 ++ hmac_sha256 prk (t1 ++ info ++ [2])).
+Proof. exact (hkdf_64). Qed.
+Print Assumptions C19_hkdf_64.
+
+(* an empty salt is 32 zero bytes *)
+Theorem C19_hkdf_empty_salt :
+  forall salt ikm : bytes,
+  hkdf salt ikm [] 64 =
+  (let prk := hmac_sha256 match salt with
+                          | [] => zeros 32
+                          | _ :: _ => salt
+                          end ikm in
+   let t1 := hmac_sha256 prk [1] in t1 ++ hmac_sha256 prk (t1 ++ [2])).
+Proof. exact (hkdf_64_empty_info). Qed.
+Print Assumptions C19_hkdf_empty_salt.
+
+(* HMAC structure: keys longer than the 64-byte block are hashed first ... *)
+Theorem C19_hmac_long_key :
+  forall k : list N, (64 < length k)%nat -> hmac_key_block k = sha256 k ++ zeros 32.
+Proof. exact (hmac_key_block_long). Qed.
+Print Assumptions C19_hmac_long_key.
+
+(* ... shorter ones are zero-padded *)
+Theorem C19_hmac_short_key :
+  forall k : list N, (length k <= 64)%nat -> hmac_key_block k = k ++ zeros (64 - length k).
+Proof. exact (hmac_key_block_short). Qed.
+Print Assumptions C19_hmac_short_key.
+
+(* wrapper: an all-zero X25519 result is DhError (kept) *)
+Theorem C19_dh_zero_is_error :
+  forall (P : prims) (k u : list N),
+  length k = 32%nat ->
+  length u = 32%nat -> all_zero (p_dh P k u) = true -> AeadWrap.x25519 P k u = Err DhError.
+Proof. exact (x25519_zero_is_error). Qed.
 Print Assumptions C19_dh_zero_is_error.
 
-Theorem C19_derive_public_is_base_mult : forall P sk, length sk = 32%nat ->
-  x25519_derive_public P sk = Ok (p_dh P sk base_point).
-Proof. exact derive_public_is_base_mult. Qed.
+(* wrapper: public-key derivation is multiplication of the base point 9 (kept) *)
+Theorem C19_derive_public_is_base_mult :
+  forall (P : prims) (sk : list N),
+  length sk = 32%nat -> x25519_derive_public P sk = Ok (p_dh P sk base_point).
+Proof. exact (derive_public_is_base_mult). Qed.
 Print Assumptions C19_derive_public_is_base_mult.
 
-Theorem C19_hash_lengths : (forall m, length (sha256 m) = 32%nat) /\ (forall k m, length (hmac_sha256 k m) = 32%nat)
-  /\ (forall s i info n, (n <= 255 * 32)%nat -> length (hkdf s i info n) = n).
+(* (kept) output lengths of SHA-256, HMAC-SHA-256 and HKDF (up to 255 * 32 bytes) *)
+Theorem C19_hash_lengths :
+  (forall m : bytes, length (sha256 m) = 32%nat) /\
+  (forall k m : bytes, length (hmac_sha256 k m) = 32%nat) /\
+  (forall (s i info : bytes) (n : nat), (n <= 255 * 32)%nat -> length (hkdf s i info n) = n).
 Proof. exact (conj sha256_length (conj hmac_length hkdf_length_le)). Qed.
 Print Assumptions C19_hash_lengths.
+
+(* X25519 returns 32 bytes *)
+Theorem C19_x25519_length :
+  forall k u : bytes, length (x25519 k u) = 32%nat.
+Proof. exact (x25519_length). Qed.
+Print Assumptions C19_x25519_length.
+
+(* the abstract AEAD laws used by all other properties hold for the RFC transcription *)
+Theorem C19_rfc_aead_laws :
+  forall scr : bytes -> bytes -> N -> N -> N -> nat -> bytes, aead_ok (rfc_prims scr).
+Proof. exact (rfc_aead_ok). Qed.
+Print Assumptions C19_rfc_aead_laws.
+
+(* ... and the length laws for the hash functions and X25519 (scrypt's output length is a hypothesis on the supplied function) *)
+Theorem C19_rfc_hash_laws :
+  forall scr : bytes -> bytes -> N -> N -> N -> nat -> list N,
+  (forall (pw s : bytes) (n r q : N) (l : nat), length (scr pw s n r q l) = l) ->
+  hash_ok (rfc_prims scr).
+Proof. exact (rfc_hash_ok). Qed.
+Print Assumptions C19_rfc_hash_laws.
+
